@@ -22,13 +22,20 @@ import (
 	"verifharness/internal/muxdrv"
 )
 
+// allMethods lists every transaction method of every app. beacon.SetEpoch is left to the
+// set_epoch generator: under DebugMockBackend an integer body IS a valid epoch, and an
+// epoch like 2^63 makes the (debug) beacon unusable ("random beacon not available").
 func allMethods() []transaction.MethodName {
 	var ms []transaction.MethodName
 	ms = append(ms, staking.Methods...)
 	ms = append(ms, governance.Methods...)
 	ms = append(ms, registry.Methods...)
 	ms = append(ms, roothash.Methods...)
-	ms = append(ms, beacon.Methods...)
+	for _, m := range beacon.Methods {
+		if m != beacon.MethodSetEpoch {
+			ms = append(ms, m)
+		}
+	}
 	ms = append(ms, vault.Methods...)
 	ms = append(ms, secrets.Methods...)
 	ms = append(ms, churp.Methods...)
@@ -164,7 +171,9 @@ func (w *world) randomTx(local map[staking.Address]uint64) (genTx, bool) {
 			}
 		}
 	}
-	if w.has(fEpochJump) && w.k.Mock {
+	// DebugMockBackend only: a SetEpoch in the first two blocks makes the scheduler see an epoch
+	// change for which the (debug) beacon never generated entropy ("random beacon not available")
+	if w.has(fEpochJump) && w.k.Mock && w.c.Next > 2 {
 		kinds = append(kinds, fEpochJump)
 	}
 	if len(kinds) == 0 {
@@ -228,12 +237,18 @@ func (w *world) randomTx(local map[staking.Address]uint64) (genTx, bool) {
 				id = uint64(r.Intn(40))
 			}
 			vote := governance.Vote(1 + r.Intn(3))
-			if r.Chance(5) {
-				vote = governance.Vote(r.Intn(256))
+			if r.Chance(45) {
+				vote = governance.VoteYes
+			}
+			if r.Chance(3) {
+				vote = governance.Vote(r.Intn(256)) // castVote does not validate the value
 			}
 			voter := k
-			if r.Chance(65) {
+			switch x := r.Intn(100); {
+			case x < 55:
 				voter = g.Validators[r.Intn(len(g.Validators))].Entity
+			case x < 85:
+				voter = g.Accounts[3*r.Intn(4)].Key // the genesis delegators (accounts 0, 3, 6, 9)
 			}
 			tx := muxdrv.TxCastVote(w.nextNonce(voter, local), w.fee(true), id, vote)
 			return genTx{raw: muxdrv.Sign(voter, tx), kind: "cast_vote"}, true
@@ -296,7 +311,17 @@ func (w *world) randomTx(local map[staking.Address]uint64) (genTx, bool) {
 		case 3: // bit flip
 			tx := staking.NewTransferTx(w.nonce[k.Address()]+local[k.Address()], w.fee(true), &staking.Transfer{To: w.pickKey().Address(), Amount: qU(10)})
 			raw := muxdrv.Sign(k, tx)
-			return genTx{raw: muxdrv.FlipBit(raw, r.Intn(8*len(raw))), kind: "bit flip", garbage: true}, true
+			fl := muxdrv.FlipBit(raw, r.Intn(8*len(raw)))
+			// A flip of bit 5 of a letter of a CBOR map key ("public_key" -> "pubLic_key") still
+			// decodes (field names are matched case-insensitively) and the signature still
+			// verifies: different bytes, same valid transaction. Not garbage then.
+			var st transaction.SignedTransaction
+			var inner transaction.Transaction
+			if cbor.Unmarshal(fl, &st) == nil && st.Open(&inner) == nil {
+				local[k.Address()]++
+				return genTx{raw: fl, kind: "bit flip (still a valid envelope)"}, true
+			}
+			return genTx{raw: fl, kind: "bit flip", garbage: true}, true
 		case 4: // every method with an empty / wrong-typed body
 			bodies := [][]byte{nil, cbor.Marshal(map[string]int{}), cbor.Marshal("x"), cbor.Marshal(uint64(1) << 63), cbor.Marshal([]int{1, 2, 3}), {0xff}, {0x9f}}
 			tx := &transaction.Transaction{Nonce: w.nextNonce(k, local), Fee: w.fee(true), Method: m, Body: bodies[r.Intn(len(bodies))]}
@@ -396,7 +421,7 @@ func (w *world) randomBlock(b int) *blockPlan {
 	w.count("block/evidence " + etag)
 	local := map[staking.Address]uint64{}
 	n := []int{0, 0, 1, 2, 3, 5, 8, 14}[r.Intn(8)]
-	if w.k.Mock && r.Chance(35) && w.has(fEpochJump) {
+	if w.k.Mock && r.Chance(35) && w.has(fEpochJump) && w.c.Next > 2 {
 		// make epochs advance regularly under the mock backend
 		k := w.keys[0]
 		ep := uint64(1)
